@@ -74,6 +74,8 @@ var holePrograms = []tplSeg{
 	{Hole: "`n{x}m`"}, {Hole: "'}'"}, {Hole: "func g(){5}; g()"},
 	{Hole: "i=0; while i<1 { i=i+1; `q{ if 1 {break} }` }", NoVal: true}, {Hole: "i=0; while i<2 { i=i+1; `{% continue %}r` }", NoVal: true}, {Hole: "while 1 { `s{break}` }", NoVal: true},
 	{Hole: "i=0; while i<2 { i=i+1; if i { `{% if 1 { continue } %}` } }; i"},
+	// a single hole whose value comes out of a conditional (the template is a string whatever the hole yields)
+	{Hole: "1 ? 2"}, {Hole: "x ? 2 : 'x'"}, {Hole: "0 ? 1 : 2.5"}, {Hole: "x ?? 3"}, {Hole: "0 ? 1, 1 ? 3"}, {Hole: "1 ? 'q'"}, {Hole: "x && 5"}, {Hole: "0 || 'z'"},
 	// containers: the same array / dict OBJECT shown by several parts of one template, directly and inside another container
 	// (ya / yd are never mutated by another hole: a part is rendered when the template is assembled, so a container changed by a
 	// later hole legitimately shows its final state)
@@ -279,7 +281,7 @@ func c13Run(raw json.RawMessage) harn.Result {
 func init() {
 	harn.Register(&harn.Check{
 		ID:   "C13",
-		Rule: "literals: every text of <= 4 (thorough 5) symbols over {a ' \" ` \\ { } % LF CR TAB CJK 0x1E space} x 4 delimiter styles, spelled with the documented escapes (raw and escaped control characters), plus size ladders; must evaluate to exactly the text with empty rest. templates: every template of <= 2 (thorough 3) segments (6 literal texts, 36 hole programs x 2 hole styles incl. assignments, blocks, loops with break / continue in nested templates, value-less index / attribute / slice assignments, nested template, function definition, the same container object shown by several parts) x both template delimiters, 3-segment shapes, nesting ladders 1..24; result must equal the concatenation of literal texts and the string form of each hole's value obtained by evaluating the hole program alone, in order, on a second VM in the same state; variables must match too. Distinct by source text; out-of-domain (text, delimiter) pairs are counted separately and are not cases.",
+		Rule: "literals: every text of <= 4 (thorough 5) symbols over {a ' \" ` \\ { } % LF CR TAB CJK 0x1E space} x 4 delimiter styles, spelled with the documented escapes (raw and escaped control characters), plus size ladders; must evaluate to exactly the text with empty rest. templates: every template of <= 2 (thorough 3) segments (6 literal texts, 44 hole programs x 2 hole styles incl. assignments, blocks, loops with break / continue in nested templates, value-less index / attribute / slice assignments, nested template, function definition, the same container object shown by several parts) x both template delimiters, 3-segment shapes, nesting ladders 1..24; result must equal the concatenation of literal texts and the string form of each hole's value obtained by evaluating the hole program alone, in order, on a second VM in the same state; variables must match too. Distinct by source text; out-of-domain (text, delimiter) pairs are counted separately and are not cases.",
 		Enumerate: c13Enumerate,
 		Run:       c13Run,
 		Budget:    map[string]time.Duration{"quick": 150 * time.Second, "thorough": 40 * time.Minute},
